@@ -13,6 +13,7 @@ import (
 
 	"verif/engine"
 	"verif/ref/ecref"
+	"verif/ref/padref"
 	"verif/ref/sm3ref"
 	"verif/ref/sm4ref"
 	"verif/ref/sm9ref"
@@ -30,7 +31,10 @@ func (Prop) SelfTest() error {
 	if err := sm9ref.SelfTest(); err != nil {
 		return err
 	}
-	return sm4ref.SelfTest()
+	if err := sm4ref.SelfTest(); err != nil {
+		return err
+	}
+	return padref.SelfTest()
 }
 func (Prop) Rule() string {
 	return "One deterministic transcript per configuration (scripted io.Reader: the ephemeral scalar r and the IV are chosen by the case, so every output byte is a function of the case). " +
@@ -45,7 +49,16 @@ func (Prop) Rule() string {
 		"Soundness (E3): every byte x {^01,^80,00,01,7f,80,ff,+1,-1}, every truncation, extensions and DER-structural edits of signatures, wrapped keys and ciphertexts (raw and ASN.1; quick: XOR/32, CBC/32 and the ASN.1 form of CFB/33, thorough: all five modes x payload {1,32,33}; thorough also all 2-deviation substitutions of h||S), coordinate+p forms of S/C1/C, other uid / hid / message: all rejected (wrapped keys: error or a different key), none panics; key-exchange confirmations and ephemeral points altered byte by byte are refused. " +
 		"Serialisation: the six key types x {raw, ASN.1, compressed, SEQUENCE-with-master-public-key, PEM} parse back to Equal keys that produce identical outputs. " +
 		"Portability: each case registers the SHA-256 of all library outputs as an outcome (case name + digest); the engine merges outcomes over all configurations, so when every configuration produced the same bytes " +
-		"distinct_outcomes equals the number of distinct cases (= cases / number of configurations); since every configuration is additionally compared with the same configuration-independent reference expectation, byte-equality across configurations follows, and artefacts of one build are by construction the artefacts every other build consumes in its own run."
+		"distinct_outcomes equals the number of distinct cases (= cases / number of configurations); since every configuration is additionally compared with the same configuration-independent reference expectation, byte-equality across configurations follows, and artefacts of one build are by construction the artefacts every other build consumes in its own run. " +
+		"Widened input dimensions (widen*.go), same references: " +
+		"own/ = every slice returned by Bytes / Marshal* of the six key types, by sign, wrap, unwrap, encrypt, decrypt and by every key-exchange step is overwritten by the harness to its full capacity after it was compared and the call is repeated on the same objects (3-4 rounds); two results of the same call alive at once must not share memory; the identity slices given to NewKeyExchange, the buffer that held the peer's RA, and the buffers 28 key encodings were parsed from are overwritten after the call returned: the objects must keep giving the reference answers and must not have modified the arguments. " +
+		"layout/ = all slice arguments of a scenario as adjacent fields of one array in every order (sign: msg,uid; verify: uid,msg,sig x {DER, (h,S)}; wrap/unwrap: uid,cipher x 3 cipher forms; encrypt: uid,msg; decrypt: uid,ct x {raw, ASN.1} x 5 modes; key exchange: idA,idB,RA,RB,SB,SA in 4 orders), capacities reaching to the end of the record plus 1 KiB of dirty slack, every call twice on the same record, uid lengths {5,0} (thorough +{1,63,64}); plaintext capacity classes {0, 1, padded-1, padded, padded+1, 400} dirty x 4 modes; arguments that are the same memory or overlap (uid == msg, msg starting inside uid, uid inside msg, uid == peerUID): results = reference, no field modified (writes into the slack are counted, not judged). " +
+		"integrity/ = verify / unwrap / decrypt (5 modes x raw, ASN.1): inputs unchanged after accepting and after refusing calls, and refused call (other message / uid / hid / key, damaged artefact) then good call on the same buffers and objects. " +
+		"history/ = every ordered pair of 7 (uid, hid, klen) states of WrapKey on one master public key, of 8 verdict states of VerifyASN1 on one master public key, of 10 (mode, length) states of Encrypt/EncryptASN1 and of Decrypt/DecryptASN1 (Eulerian sequence); two master keys alternately; first use of a freshly parsed key through 8 + 10 entry points; key-exchange objects: second session, after Destroy, abandoned Init, refused message then genuine one (then: error or the defined value), two sessions interleaved with swapped roles. " +
+		"lanes/ = key exchange x every residue of the KDF input mod 64 x key lengths {129, 225, 385} (thorough 33..800: every combination of 8-lane rounds, 4-lane remainder and single blocks); XOR encryption x every uid residue x payload {97, 193, 353}; H2 over message lengths 0..130; H1 on the signature side over uid lengths 0..70; every payload length 1..48 (XOR and thorough: 1..130) for every mode; uid 255/256/1000 with keys up to 4099 bytes. " +
+		"variant/ = New{ECB,CBC}EncrypterOpts x {PKCS#7, ANSI X9.23, ISO 9797-1 method 2, method 3} (verif/ref/padref) and New{CFB,OFB}EncrypterOpts x {SM4, AES-128, AES-192, AES-256} x payload {1,15,16,17,40}, raw and SM9Cipher encodings recomputed; hid {0,2,4,0x7f,0x80,0xfe}; nil and empty uid / message; every documented form of the crypto.Decrypter options; the method form pub.Encrypt and nil options on both ASN.1 entry points. " +
+		"shape/ = C.x, C.y, g^r (first and last coordinate), l, ks (< 2^248, < 2^240, top bit set), Ppub-e, Ppub-s, ds, de with a zero top byte, found by deterministic search. " +
+		"degenerate/ = ks = H1(ID||hid) (user public key is a doubling; sign, encrypt, key-exchange peer), ks = n - H1(ID||hid) (no user key: GenerateUserKey must fail), a scalar whose one-byte wrapped key is 00 (WrapKey must not return it), first random block in {0, n, n+1, 2^256-1} (artefacts must be valid for the recipient; which block is used next is recorded, not judged)."
 }
 func (Prop) Assumptions() []string {
 	return []string{
@@ -55,6 +68,10 @@ func (Prop) Assumptions() []string {
 		"key lengths 0 (WrapKey would never terminate) and empty plaintexts (documented error) are not part of the product; empty inputs to the Unmarshal*Raw/ASN1 key parsers belong to C13",
 		"uid/payload/message contents are fixed deterministic patterns; only lengths, scalars and modes are enumerated",
 		"dispatch tiers are those reachable on this amd64 host via GODEBUG=cpu.*=off and -tags purego; arm64/ppc64le/s390x assembly is not covered",
+		"ownership oracles (own/): a slice the library returned and a slice the library was given belong to the caller as soon as the call has returned; results of UnmarshalSM9KeyPackage may point into its input (not judged); DecrypterOptsWithUID is a plain struct that holds the caller's uid by design (not judged)",
+		"after a refused key-exchange message the same object may either refuse to go on or continue with the defined values; both are accepted",
+		"custom EncrypterOpts are checked in the raw encoding and in the SM9Cipher encoding on the encryption side; DecryptASN1 is documented to assume SM4 with PKCS#7 and is only used for those",
+		"AES in the variant/ family is Go's crypto/aes on both sides (the code under test is the option plumbing: key size, KDF length, padding, IV placement), SM4 is the reference SM4",
 	}
 }
 
@@ -232,6 +249,7 @@ func (Prop) Run(c *engine.Ctx) {
 	runKX(c)
 	runSerial(c)
 	runSound(c)
+	runWiden(c)
 	if !c.Quick() {
 		runEncModesProduct(c)
 		runThoroughProduct(c)
